@@ -134,3 +134,34 @@ Proof.
   - exists c. split; [assumption|constructor].
   - destruct (IH Hpx) as (c' & Hc' & Hd'). exists c'. split; [assumption|]. eapply desc_child; eauto.
 Qed.
+
+(* the rank after hanging the root c below p: unchanged outside c's subtree *)
+Definition edges (rk : nat -> nat) (m : nmap) : Prop := forall c p, parent (m c) = Some p -> rk p < rk c.
+
+Lemma rank_attach m m' p c rk B :
+  edges rk m -> (forall x, rk x <= B) -> parent (m c) = None -> ~ desc m c p ->
+  parent (m' c) = Some p -> (forall y, y <> c -> parent (m' y) = parent (m y)) ->
+  exists rk', edges rk' m' /\ (forall x, rk' x <= B + B + 1) /\ rk' p = rk p.
+Proof.
+  intros Hrk Hbound Hroot Hnd Hpc Hoth.
+  set (below := fun y => match is_anc (S (rk y)) m c y with Some true => true | _ => false end).
+  assert (Hbelow : forall y, below y = true <-> desc m c y).
+  { intro y. unfold below. destruct (is_anc_spec m rk Hrk (S (rk y)) c y) as (b & Hb & Hbd); [lia|].
+    rewrite Hb. destruct b; [tauto|]. split; [discriminate|]. intro H. apply Hbd in H. discriminate. }
+  assert (H2 : below p = false).
+  { destruct (below p) eqn:Hb; [|reflexivity]. apply Hbelow in Hb. contradiction. }
+  exists (fun y => if below y then rk y + rk p + 1 else rk y).
+  split; [|split; [intro y; pose proof (Hbound y); pose proof (Hbound p); destruct (below y); lia|now rewrite H2]].
+  intros y q Hq. destruct (Nat.eq_dec y c) as [->|Hy].
+  - rewrite Hpc in Hq. inversion Hq; subst q.
+    assert (H1 : below c = true) by (apply Hbelow; constructor).
+    rewrite H1, H2. lia.
+  - rewrite Hoth in Hq by assumption. pose proof (Hrk _ _ Hq) as Hlt.
+    destruct (below y) eqn:Hby.
+    + apply Hbelow in Hby. apply desc_inv in Hby. destruct Hby as [?|(q' & Hq' & Hd)]; [congruence|].
+      assert (q' = q) by congruence. subst q'.
+      assert (Hbq : below q = true) by now apply Hbelow. rewrite Hbq. lia.
+    + destruct (below q) eqn:Hbq; [|lia].
+      apply Hbelow in Hbq. assert (Hd : desc m c y) by (eapply desc_child; eauto).
+      apply Hbelow in Hd. congruence.
+Qed.
